@@ -1,7 +1,9 @@
 package harness
 
 import (
+	"crypto/sha256"
 	"encoding/base64"
+	"encoding/hex"
 	"encoding/json"
 	"fmt"
 	"math/rand"
@@ -480,6 +482,11 @@ func (c *Chain) ProduceBlock(txs []TxSpec, dt int64, absent map[string]bool) *Bl
 		ChainID: c.ChainID, Height: c.App.LastBlockHeight() + 1, AppHash: c.App.LastCommitID().Hash,
 		Time: c.ProposedHeader.Time, ValidatorsHash: c.Vals.Hash(), NextValidatorsHash: c.NextVals.Hash(),
 		ProposerAddress: c.Vals.Proposer.Address,
+	}
+	if w.ObsOn {
+		rb, _ := res.Marshal()
+		h := sha256.Sum256(rb)
+		w.Obs = append(w.Obs, ObsRec{Chain: c.Name, H: height, App: hex.EncodeToString(c.App.LastCommitID().Hash)[:16], Res: hex.EncodeToString(h[:8])})
 	}
 	w.net.collect(c, res, br)
 	for i := range txs {
